@@ -37,6 +37,7 @@ type SecureAead struct {
 	secret []byte
 	aead   cipher.AEAD
 	nonce  []byte
+	rest   []byte //opened plaintext not yet delivered to the reader
 }
 
 const (
@@ -117,13 +118,18 @@ func (sa *SecureAead) increaseNonce() {
 	}
 }
 func (sa *SecureAead) Read(b []byte) (n int, err error) {
+	if len(sa.rest) > 0 {
+		n = copy(b, sa.rest)
+		sa.rest = sa.rest[n:]
+		return
+	}
 	frame := make([]byte, secureConnFrameSize)
 	_, err = io.ReadFull(sa.conn, frame[:secureConnHeaderSize])
 	if err != nil {
 		return
 	}
-	n = int(binary.BigEndian.Uint16(frame))
-	sealed := make([]byte, n+sa.aead.Overhead())
+	fn := int(binary.BigEndian.Uint16(frame))
+	sealed := make([]byte, fn+sa.aead.Overhead())
 	_, err = io.ReadFull(sa.conn, sealed)
 	if err != nil {
 		return
@@ -135,7 +141,8 @@ func (sa *SecureAead) Read(b []byte) (n int, err error) {
 	}
 	sa.increaseNonce()
 
-	copy(b, frame[:n])
+	n = copy(b, frame[:fn])
+	sa.rest = frame[n:fn]
 	return
 }
 
